@@ -15,14 +15,14 @@ for f in sorted(glob.glob("/tmp/seedres/*.json")):
         print(name, "SKIP: demo does not separate pristine/patched", d.get("demo_pristine_rc"), d.get("demo_patched_rc")); continue
     if bad:
         print(name, "SKIP: existing tests fail with the change:", bad); continue
-    if not os.path.isdir(src):
-        print(name, "source dir gone"); continue
     dst = os.path.join(V, "seeded", name)
+    if not os.path.isdir(src) and not os.path.exists(os.path.join(dst, "meta.json")):
+        print(name, "source dir gone"); continue
     os.makedirs(dst, exist_ok=True)
     note = None
     if os.path.exists(os.path.join(dst, "meta.json")):
         note = json.load(open(os.path.join(dst, "meta.json"))).get("note_coordinator")
-    for fn in os.listdir(src):
+    for fn in (os.listdir(src) if os.path.isdir(src) else []):
         p = os.path.join(src, fn)
         if os.path.isfile(p) and os.path.getsize(p) < 300000 and fn.endswith((".diff", ".cpp", ".txt", ".json", ".sh", ".hpp", ".md")):
             shutil.copy(p, dst)
@@ -38,6 +38,9 @@ for f in sorted(glob.glob("/tmp/seedres/*.json")):
         meta["note_coordinator"] = note
     meta["detected"] = bool(rep)
     meta["reported_by"] = ", ".join("%s (%d failing-input replay%s%s)" % (k, r["with_failing_input"], "s" if r["with_failing_input"] != 1 else "", ", correspondence" if r["violation_lines"] > r["with_failing_input"] else "") for k, r in rep.items()) or "NOT REPORTED by the checks run (%s)" % ",".join(d["checks"].keys())
+    if any(c.get("rechecked_after_strengthening") for c in d["checks"].values()):
+        meta["reported_by"] += " [missed by the first version of the check; reported after the check was strengthened]"
+        meta["missed_first"] = True
     meta["suite"] = "70 baseline tests pass with the change (full suite, incremental build in scratch worktree of /repo HEAD)"
     meta["confirmed_by_coordinator"] = "tools/seed_pipeline.py: demo exit 0 on pristine / %s with patch; full test suite re-run with the patch: only the 6 targets that never compile are 'Not Run'; checks run with VERIF_REPO=<patched scratch worktree>: %s" % (d.get("demo_patched_rc"), json.dumps(rep)[:600])
     json.dump(meta, open(os.path.join(dst, "meta.json"), "w"), indent=1)
